@@ -945,11 +945,7 @@ func checkShape(c shapeCase) (o pbt.Outcome) {
 			o.Labels = append(o.Labels, "malformed")
 			switch {
 			case crash != "":
-				if c.Rule == "date_year" && len(s) < 4 && strings.Contains(crash, "slice bounds out of range") {
-					note("C09-F1", desc+": Go runtime panic instead of an error: "+crash)
-				} else {
-					note("", desc+": Go runtime panic instead of an error: "+crash)
-				}
+				note("", desc+": Go runtime panic instead of an error: "+crash)
 			case rejected == "":
 				o.Labels = append(o.Labels, "malformed_accepted")
 				if v, ok := lenientReading(c.Rule, s); ok && v == idx {
